@@ -768,6 +768,10 @@ func GenC20(seed uint64) *Plan {
 		d := logDecl(name, start, g.chance(50))
 		d.Event.Name = "Transfer"
 		d.Sources = []model.SrcRef{{Name: src.Name, Start: start}}
+		if g.chance(25) {
+			// a stop at or shortly after the start
+			d.Sources[0].Stop = start + uint64(g.between(0, 3))
+		}
 		if len(p.Sources) > 1 && g.chance(30) {
 			o := p.Sources[0]
 			if o.Name == src.Name {
